@@ -19,6 +19,11 @@ VERIF = os.path.dirname(HERE)
 SRC = '/repo'
 ROOT = '/root/scratch/replay'
 
+# dead or out-of-scope code (DESIGN section 8): mutants there are equivalent by construction; recorded, not replayed
+DEAD = ('simple_build_indices', 'view_cols', '_build_indices', 'c_extract_segments', '__apply_binary_func', '__from_intervals',
+        'BitMask', 'stack_with_ragged', '__repr__', '__str__', '.std', 'RaggedShape.__getitem__', 'cupy', 'set_backend',
+        '_get_col_reverse', '__get_col_reverse')
+
 RL1 = ('RunLengthArray',)
 RL2 = ('RunLength2dArray', 'RunLengthRaggedArray', 'IndexableMixin')
 
@@ -137,7 +142,9 @@ def worker(args):
             except subprocess.TimeoutExpired:
                 survived = False
             rec['survived_suite'] = survived
-            if survived:
+            if survived and any(d in fn for d in DEAD):
+                rec['dead_code'] = True
+            elif survived:
                 rec['checks'] = {}
                 rec['detected_by'] = None
                 for cid in checks_for(f, fn):
